@@ -32,7 +32,7 @@ func (e *SExpr) String() string {
 		return "<nil>"
 	}
 	switch e.Kind {
-	case "ident", "int", "bool":
+	case "ident", "int", "bool", "float":
 		return e.Name
 	case "char":
 		return "'" + e.Name + "'"
@@ -109,6 +109,15 @@ func lexSpec(src string) ([]tok, error) {
 			j := i
 			for j < len(src) && (isDigit(src[j]) || src[j] == 'x' || src[j] == 'X' || src[j] == '_' || src[j] >= 'a' && src[j] <= 'f' || src[j] >= 'A' && src[j] <= 'F') {
 				j++
+			}
+			if j+1 < len(src) && src[j] == '.' && isDigit(src[j+1]) && !strings.HasPrefix(src[i:j], "0x") {
+				j++
+				for j < len(src) && isDigit(src[j]) {
+					j++
+				}
+				toks = append(toks, tok{"float", src[i:j]})
+				i = j
+				continue
 			}
 			toks = append(toks, tok{"int", strings.ReplaceAll(src[i:j], "_", "")})
 			i = j
@@ -442,6 +451,8 @@ func (p *sparser) primary() *SExpr {
 		return &SExpr{Kind: "ident", Name: t.s}
 	case "int":
 		return &SExpr{Kind: "int", Name: t.s}
+	case "float":
+		return &SExpr{Kind: "float", Name: t.s}
 	case "char":
 		return &SExpr{Kind: "char", Name: t.s}
 	case "str":
